@@ -94,6 +94,7 @@ type Session struct {
 	res     Result
 	n       int
 	trace   bool
+	objIDs  map[interface{}]int // objects seen by Observe, numbered in order of first appearance
 }
 
 // New creates a session for the given thread bodies.
@@ -293,6 +294,23 @@ func (s *Session) Access(name string, write bool) {
 	}
 	// unprotected access: a scheduling point of its own
 	s.yield(t, &pendingOp{kind: opAccess, name: name, write: write})
+}
+
+// Observe implements verifrt.Session: an access that is recorded for the race detection only.
+func (s *Session) Observe(p interface{}, field string, write bool) {
+	t := s.current()
+	if t == nil {
+		return
+	}
+	if s.objIDs == nil {
+		s.objIDs = map[interface{}]int{}
+	}
+	id, ok := s.objIDs[p]
+	if !ok {
+		id = len(s.objIDs) + 1
+		s.objIDs[p] = id
+	}
+	s.record(t, fmt.Sprintf("%s#%d", field, id), write, len(t.held) > 0)
 }
 
 func hb(a *access, cur vc) bool { return a.clock[a.tid] <= cur[a.tid] }
